@@ -119,6 +119,9 @@ MAIN_STEP = {
     "E4-decoded-sets-D": "implies(is_decoded(), DABS == at(pre_L2, hit.end) and len(stack) == pk())",
     "E4-context-pushed": "implies(is_context(), len(stack) == pk() + 1 and DABS == old.DABS and ABSK[len(stack)] == at(pre_L2, hit.start))",
     "E4-dropped-D": "implies(not attached(), DABS == old.DABS)",
+    # a decoded hit - and nothing else - is searched recursively, with one less depth
+    "E4-decoded-is-searched": "iff(is_decoded(), called('scan_node', hit, depth_limit - 1))",
+    "E4-nothing-else-is-searched": "implies(not is_decoded(), not called('scan_node'))",
 }
 
 POP_INV = {
